@@ -275,13 +275,21 @@ func waitWithTimeout(cv *sync.Cond, d time.Duration) {
 type group struct {
 	s  *sched
 	wg sync.WaitGroup
-	n  int
-	mu sync.Mutex
+	n    int
+	adds int // total registered so far
+	mu   sync.Mutex
+}
+
+func (g *group) registered() int {
+	g.mu.Lock()
+	defer g.mu.Unlock()
+	return g.adds
 }
 
 func (g *group) Add(delta int) {
 	g.mu.Lock()
 	g.n += delta
+	g.adds += delta
 	g.mu.Unlock()
 	g.wg.Add(delta)
 }
